@@ -107,6 +107,20 @@ def fieldwise_sum_problems(ev, f, path):
         if "assign" not in o:
             continue
         op, lhs, rhs = o["assign"][:3]
+        if op == "=" and (lhs == "sym(A)" or (o.get("place") or "") == "self") and "(" in rhs and rhs.endswith(")") and not [g for g in o["guard"] if g not in ("true", "not false")]:
+            # `*self = Self { f: .., .. }`: the whole value is replaced by a struct literal
+            inner, depth_, start, parts = rhs[rhs.index("(") + 1:-1], 0, 0, []
+            for i_, ch in enumerate(inner):
+                depth_ += ch == "("
+                depth_ -= ch == ")"
+                if ch == "," and depth_ == 0:
+                    parts.append(inner[start:i_])
+                    start = i_ + 1
+            parts.append(inner[start:])
+            lit = dict(p_.split("=", 1) for p_ in parts if "=" in p_)
+            if set(lit) == set(fields):
+                final = lit
+            continue
         m = re.fullmatch(r"self\.(\w+)", o.get("place") or "") or re.fullmatch(r"sym\(A\.(\w+)\)", lhs)
         if not m or m.group(1) not in final:
             continue
